@@ -125,6 +125,21 @@ func (e *Env) Begin() {
 	e.C.StepFn = func() uint64 { return e.Step }
 }
 
+// lock / unlock guard the simulated world. They are invisible to the race
+// detector (simrt.RaceOff): the simulator must not add happens-before edges
+// between goroutines of the code under test.
+func (e *Env) lock() {
+	simrt.RaceOff()
+	e.mu.Lock()
+	simrt.RaceOn()
+}
+
+func (e *Env) unlock() {
+	simrt.RaceOff()
+	e.mu.Unlock()
+	simrt.RaceOn()
+}
+
 // StepNow returns the current scheduler step; safe from any goroutine.
 func (e *Env) StepNow() uint64 { return e.stepA.Load() }
 
@@ -134,6 +149,10 @@ func (e *Env) Now() time.Duration { return time.Since(e.T0) }
 // Ev records an event in the digest (and trace).
 func (e *Env) Ev(format string, a ...any) {
 	if e.frozen.Load() {
+		return
+	}
+	if e.FreeMode {
+		e.NEv++ // no event log in free mode: the run is not deterministic anyway
 		return
 	}
 	s := fmt.Sprintf(format, a...)
@@ -179,7 +198,7 @@ func (e *Env) Loop(done func() bool) string {
 				simrt.Sleep(sleep, early)
 			}
 			d := e.Now() - before
-			e.mu.Lock()
+			e.lock()
 			if d > 0 {
 				e.instantSteps = 0
 			}
@@ -195,7 +214,7 @@ func (e *Env) Loop(done func() bool) string {
 			} else {
 				e.Ev("S+%d", int64(d))
 			}
-			e.mu.Unlock()
+			e.unlock()
 			if early && idleFor >= 3*e.Knobs.MaxIdle {
 				return "idle"
 			}
@@ -216,8 +235,8 @@ func (e *Env) anyEnabled() bool {
 // a reason to stop, or what the caller has to do after unlocking: sleep, or
 // release a goroutine.
 func (e *Env) step(done func() bool, idleFor *time.Duration) (reason string, sleep time.Duration, early bool, rel *simrt.G) {
-	e.mu.Lock()
-	defer e.mu.Unlock()
+	e.lock()
+	defer e.unlock()
 	e.Step++
 	e.stepA.Store(e.Step)
 	e.Stats.Steps++
